@@ -17,35 +17,46 @@ variable {α : Type} [Field α] [LinearOrder α] [IsStrictOrderedRing α]
 def xiOf (x : List α) : Nat → α := fun i => x.getD i 0
 
 /-- `a_n` as the code computes it (`harmonic`) is the published `a_n`, and it is positive for `n ≥ 2`. -/
-theorem harmonic_eq (n : Nat) : harmonic (α := α) n = aN n ∧ harmonicP (α := α) n 2 = bN n ∧ (2 ≤ n → 0 < aN (α := α) n) := by
-  sorry
+theorem harmonic_eq (n : Nat) : harmonic (α := α) n = aN n ∧ harmonicP (α := α) n 2 = bN n ∧ (2 ≤ n → 0 < aN (α := α) n) :=
+  ⟨sp_harmonic_eq n, sp_harmonicP_two n, sp_aN_pos n⟩
 
 /-- Watterson (1975): `θ_W = S / a_n`. -/
 theorem watterson_published (n : Nat) (x : List α) (hlen : x.length = n + 1) :
-    statTheta x = pubThetaW n (xiOf x) := by
-  sorry
+    statTheta x = pubThetaW n (xiOf x) :=
+  sp_statTheta n x hlen
 
 /-- `S = Σ_{i=1}^{n-1} ξ_i`. -/
 theorem segregating_published (n : Nat) (x : List α) (hlen : x.length = n + 1) :
-    segregating x = pubS n (xiOf x) := by
-  sorry
+    segregating x = pubS n (xiOf x) :=
+  sp_segregating n x hlen
 
 /-- Tajima (1983): `π = Σ_i i (n - i) ξ_i / C(n, 2)`. -/
 theorem pi_published (n : Nat) (x : List α) (hlen : x.length = n + 1) :
-    statPi x = pubPi n (xiOf x) := by
-  sorry
+    statPi x = pubPi n (xiOf x) :=
+  sp_statPi n x hlen
 
 /-- Tajima (1989): `D = (π - θ_W) / sqrt(e1 S + e2 S (S - 1))` with the published constants. -/
 theorem tajimaD_published (n : Nat) (hn : 3 ≤ n) (x : List α) (hlen : x.length = n + 1) :
     (dTajima x).num = (pubTajimaD n (xiOf x)).num ∧ (dTajima x).var = (pubTajimaD n (xiOf x)).var := by
-  sorry
+  have h := sp_dTajima n x hlen
+  exact ⟨congrArg DParts.num h, congrArg DParts.var h⟩
 
 /-- Fu and Li (1993): `D = (S - a_n ξ_1) / sqrt(u_D S + v_D S²)`; the code's `(θ_W - ξ_1) / (sqrt(·) / a_n)` is the same
     number: same variance term, numerator `(θ_W - ξ_1) · a_n = S - a_n ξ_1`. -/
 theorem fuLiD_published (n : Nat) (hn : 3 ≤ n) (x : List α) (hlen : x.length = n + 1) :
-    ∃ p, dFuLi x = some p ∧ p.num = (pubFuLiD n (xiOf x)).num ∧ p.var = (pubFuLiD n (xiOf x)).var := by
-  sorry
+    ∃ p, dFuLi x = some p ∧ p.num = (pubFuLiD n (xiOf x)).num ∧ p.var = (pubFuLiD n (xiOf x)).var :=
+  sp_dFuLi n hn x hlen
 
 /-! non-vacuity: the hypotheses are `3 ≤ n` and `x.length = n + 1` only (any list of at least four entries). -/
+
+/-- On `ξ = [10, 3, 1, 0, 2, 7]` (`n = 5`, `S = 6`, `a_5 = 25/12`): `π - θ_W = 13/5 - 72/25 = -7/25` and the variance is
+    `9108/51875 ≠ 0`, the same on the code side and on the published side. -/
+example :
+    (dTajima ([10, 3, 1, 0, 2, 7] : List Rat)).num = -7 / 25 ∧
+    (pubTajimaD 5 (xiOf ([10, 3, 1, 0, 2, 7] : List Rat))).num = -7 / 25 ∧
+    (dTajima ([10, 3, 1, 0, 2, 7] : List Rat)).var = 9108 / 51875 ∧
+    (pubTajimaD 5 (xiOf ([10, 3, 1, 0, 2, 7] : List Rat))).var = 9108 / 51875 ∧
+    (9108 / 51875 : Rat) ≠ 0 := by
+  decide +kernel
 
 end Sfs.C06
